@@ -21,6 +21,9 @@
 (*   [k |-> "md", m]               the value of the metadata query          *)
 (*   [k |-> "dq", fmt, m]          the data query result in a format        *)
 (*   [k |-> "script", m, lvl]      what the script prints for message m     *)
+(*   [k |-> "written", m, old, pre] the output file of `encode`: what was    *)
+(*                                 there before (kept only with --append),  *)
+(*                                 the preamble, then message m             *)
 (* status "ok" | "error": the library error is reported on stderr (no       *)
 (* traceback) and nothing more is printed.                                 *)
 (***************************************************************************)
@@ -99,8 +102,15 @@ ScriptFile(o, f) ==
     IF Pool[m].bad /\ ~o.md THEN [items |-> <<>>, ok |-> FALSE]
     ELSE [items |-> <<[k |-> "script", m |-> m, lvl |-> o.lvl, md |-> o.md]>>, ok |-> TRUE]
 
+(* encode: the input is the rendering of the first message of the file in the format the two flags name; the output file holds
+   the preamble and the message, after what it held before when --append is given and instead of it otherwise *)
+EncodeFile(o, f) ==
+    LET m == inv.files[f][1] IN
+    [items |-> <<[k |-> "written", m |-> m, fmt |-> Fmt(o.json, o.attributed), old |-> o.exists /\ o.append, pre |-> o.pre]>>, ok |-> TRUE]
+
 FileOut(f) ==
-    CASE inv.cmd = "decode" -> DecodeFile(inv.o, f)
+    CASE inv.cmd = "encode" -> EncodeFile(inv.o, f)
+      [] inv.cmd = "decode" -> DecodeFile(inv.o, f)
       [] inv.cmd = "info" -> InfoFile(inv.o, f)
       [] inv.cmd = "split" -> SplitFile(inv.o, f)
       [] inv.cmd = "query" -> QueryFile(inv.o, f)
@@ -120,10 +130,13 @@ Opts(c) ==
       [] c = "split" -> [cont : BOOLEAN]
       [] c = "query" -> {o \in [md : BOOLEAN, json : BOOLEAN, nested : BOOLEAN] : (o.nested => o.json) /\ (o.md => ~o.json)}
       [] c = "script" -> [md : BOOLEAN, lvl : {0, 1, 2, 4}]
+      [] c = "encode" -> [json : BOOLEAN, attributed : BOOLEAN, append : BOOLEAN, pre : BOOLEAN, exists : BOOLEAN]
 
 FileLists == {<<a>> : a \in FileSet} \cup {<<a, b>> : a \in FileSet, b \in FileSet}
 
-Init == /\ \E c \in Commands : \E o \in Opts(c) : \E fs \in FileLists : inv = [cmd |-> c, o |-> o, files |-> fs]
+Init == /\ \E c \in Commands : \E o \in Opts(c) : \E fs \in FileLists :
+              /\ inv = [cmd |-> c, o |-> o, files |-> fs]
+              /\ (c = "encode" => Len(fs) = 1 /\ ~Pool[fs[1][1]].bad)       \* one input, and there is a rendering of it
         /\ out = <<>> /\ status = "new"
 Run == /\ status = "new"
        /\ LET r == Upto(1) IN out' = r.items /\ status' = IF r.ok THEN "ok" ELSE "error"
@@ -164,6 +177,9 @@ FilterAndContinue ==
         /\ (inv.o.cont => status = "ok")
         /\ (status = "ok" /\ ~inv.o.filt) =>
                Len(out) = Len(SelectSeq(Flat(inv.files), LAMBDA m : ~Pool[m].bad))
+
+(* encode keeps what the output file held exactly when it existed and --append was given *)
+AppendKeepsOld == (Done /\ inv.cmd = "encode") => (Len(out) = 1 /\ (out[1].old <=> (inv.o.exists /\ inv.o.append)))
 
 Emit == Done => PrintT(ToJson([inv |-> inv, out |-> out, status |-> status]))
 =============================================================================
